@@ -377,6 +377,36 @@ pub fn run(ctx: &Ctx, st: &mut Stats) {
             st.eval_hist(mix(mix(y as u64, (m * 64 + d) as u64), mix(gy as u64, (gm * 64 + gd) as u64)), vec![C::Text(gy, gm, gd), c, c, C::Text(gy, gm, gd)], check);
         }
     });
+    // small steps: A, then A + delta for every delta in -70..=70, A around every month end (a stepping shortcut must
+    // carry across two month ends when the step skips February)
+    let ystep = ctx.tier.pick(1999, 23, 1);
+    ctx.par(st, "history: A then A+delta, delta -70..=70, A around every month end", true, 0, (9999 + ystep - 1) / ystep, |st, i, _| {
+        let y = 1 + i * ystep;
+        for a in crate::pools::month_end_days(y) {
+            for delta in -70i64..=70 {
+                let b = a + delta;
+                if (MIN_DAY as i64..=MAX_DAY as i64).contains(&b) {
+                    st.eval_hist(mix(a as u64, b as u64), vec![C::Day(a as i32), C::Day(b as i32)], check);
+                }
+            }
+        }
+    });
+    // months and days of any magnitude (a table index taken modulo a power of two must not alias a real month)
+    let nwm = ctx.tier.pick(300, 400_000, 4_000_000);
+    ctx.par(st, "triples/months and days of any magnitude", false, 0, nwm, |st, _, rng| {
+        let y = if rng.chance(1, 8) { rng.next() as i32 } else { rng.range_i64(-5, 10_005) as i32 };
+        let wide = |rng: &mut Rng, hi: i64| -> u32 {
+            match rng.below(5) {
+                0 => rng.range_i64(0, hi) as u32,
+                1 => rng.range_i64(0, 300) as u32,
+                2 => ((1u64 << rng.below(32)) as i64 + rng.range_i64(-1, (hi).min(31))) as u32,
+                3 => (rng.range_i64(1, hi) as u32).wrapping_add((rng.below(1 << 27) as u32) << 4),
+                _ => rng.next() as u32,
+            }
+        };
+        let (m, d) = (wide(rng, 14), wide(rng, 33));
+        st.eval_h(mix(y as u64, mix(m as u64, d as u64)), &C::Triple(y, m, d), check);
+    });
     ctx.par(st, "history: all day numbers descending", true, 0, n_idx, |st, i, _| {
         st.eval(&C::Day(MAX_DAY - (i * stride) as i32), check);
     });
